@@ -12,7 +12,7 @@ Transcribed from
                           RPC = contract price, Storage = base revenue − contract price, locked =
                           host payout − base revenue)
 * `rhp/v3/payments.go`  — `processFundAccountPayment` (Cost = FundAccountCost, Amount = total − cost;
-                          `Currency.Sub` panics when total < cost), `processContractPayment`
+                          a payment below the cost is refused, fix d77a196; `ValidatePaymentRevision`), `processContractPayment`
                           (whole transfer credited to the refund account)
 * `rhp/v3/rpc.go`       — `handleRPCRenew` (RPC = contract price, Storage = RenewContractCost +
                           storage extension, locked = host payout − (contract price + that))
@@ -97,17 +97,21 @@ structure Facts where
   /-- `incrementContractUsage` persists (and `Contract()` reports) `registry_read`/`registry_write`
   (fix commits 7f588c8, 01c80e7) -/
   keepRegistry : Bool
+  /-- the RHP3 payment paths run `rhp.ValidatePaymentRevision` before signing: what leaves the
+  renter's valid payout is exactly what the host's valid and missed payouts gain -/
+  validatePay : Bool
 
 /-- the current tree: `costs.Storage += excess` (rpc.go:710), `costs.Egress += excess` (rpc.go:524,800) -/
 def Facts.current : Facts :=
   { excess := fun k => match k with | .write => some .sto | .read => some .egr | .roots => some .egr,
-    fundAf := true, keepRegistry := true }
+    fundAf := true, keepRegistry := true, validatePay := true }
 
 /-- every amount is recorded somewhere: the excess in a revenue category proper (the unspent
 account funding is backed by funding rows, an over-payment is not), deposits as account funding,
 registry revenue persisted -/
 def Facts.ok (F : Facts) : Prop :=
-  (∀ k, ∃ c, F.excess k = some c ∧ c ≠ Cat.af) ∧ F.fundAf = true ∧ F.keepRegistry = true
+  (∀ k, ∃ c, F.excess k = some c ∧ c ≠ Cat.af) ∧ F.fundAf = true ∧ F.keepRegistry = true ∧
+  F.validatePay = true
 
 /-- what `incrementContractUsage` adds to the row -/
 def Facts.persist (F : Facts) (u : Usage) : Usage :=
@@ -212,11 +216,22 @@ def form (s : State) (cid : Cid) (hp mhp vrp price : Nat) : State × Out :=
 /-- collateral the handler passes to `ValidateRevision`: the computed one for write, zero otherwise -/
 def collArg (k : Kind) (cost : Cost) : Nat := match k with | .write => cost.coll | _ => 0
 
+/-- The checks of `rpcSectorRoots` on the requested range, made before anything is charged
+(fix e3519d3: an empty range has no Merkle proof; the sum must not wrap around). -/
+def rootsWF (sectors off n : Nat) : Bool := n != 0 && decide (off ≤ sectors) && decide (n ≤ sectors - off)
+
+/-- What `rpcWrite` demands of the action list beyond `RPCWriteCost`: no Merkle proof for `update`
+actions (fix b659995), and — at commit — the root of every patched sector must be a sector the
+host stores (`updateSector` looks the new root up; the handler writes the patched data under the
+OLD root, so on the current tree this only holds when the new root happens to be stored already). -/
+def writeWF (proof hasUpdate newRootsStored : Bool) : Bool := !(proof && hasUpdate) && (!hasUpdate || newRootsStored)
+
 /-- `Revise` + `rhp.ValidateRevision` on the money fields.  `transfer` is what the proposed
 revision moves from the renter's to the host's valid payout, `burn` what it moves from the
-host's missed payout to the void. -/
-def reviseGuard (c : Contract) (k : Kind) (cost : Cost) (transfer burn : Nat) : Bool :=
-  c.present && c.revisable
+host's missed payout to the void.  `wf`: the request passes the non-monetary checks
+(`rootsWF` / `writeWF`); a request failing them is refused and nothing is recorded. -/
+def reviseGuard (c : Contract) (k : Kind) (cost : Cost) (transfer burn : Nat) (wf : Bool) : Bool :=
+  wf && c.present && c.revisable
   && decide (cost.total ≤ c.vrp)         -- renter output must cover the payment amount
   && decide (collArg k cost ≤ c.mhp)     -- host missed output must cover the collateral amount
   && decide (transfer ≤ c.vrp)           -- renter valid payout must decrease (no underflow)
@@ -234,40 +249,52 @@ def revised (F : Facts) (c : Contract) (k : Kind) (cost : Cost) (transfer burn :
   { c with vhp := c.vhp + transfer, vrp := c.vrp - transfer, mhp := c.mhp - burn,
            u := c.u.add (F.persist (reviseUsage F k cost transfer burn)) }
 
-def revise (F : Facts) (s : State) (cid : Cid) (k : Kind) (cost : Cost) (transfer burn : Nat) : State × Out :=
-  if reviseGuard (s.ctr cid) k cost transfer burn then
+def revise (F : Facts) (s : State) (cid : Cid) (k : Kind) (cost : Cost) (transfer burn : Nat) (wf : Bool := true) :
+    State × Out :=
+  if reviseGuard (s.ctr cid) k cost transfer burn wf then
     ({ s with ctr := upd s.ctr cid (revised F (s.ctr cid) k cost transfer burn) }, .ok)
   else (s, .reject)
 
 /-! ### RHP3 payments by contract -/
 
-def creditGuard (s : State) (cid : Cid) (a : Acct) (cost total : Nat) (checkMax : Bool) : Bool :=
+/-- A proposed payment revision: `total` leaves the renter's valid (and missed) payout, `up` is
+added to the host's valid payout, `mup` to the host's missed payout.  A well-formed payment has
+`up = mup = total`. -/
+structure PayRev where
+  total : Nat
+  up : Nat
+  mup : Nat
+deriving DecidableEq, Repr
+
+def PayRev.exact (total : Nat) : PayRev := { total := total, up := total, mup := total }
+
+def creditGuard (F : Facts) (s : State) (cid : Cid) (a : Acct) (cost : Nat) (p : PayRev) (checkMax : Bool) : Bool :=
   (s.ctr cid).present && (s.ctr cid).revisable
-  && decide (total ≤ (s.ctr cid).vrp)                               -- new revision has more funds than current
-  && (!checkMax || decide (s.bal a + (total - cost) ≤ s.cfg.maxBal))  -- ErrBalanceExceeded
+  && decide (p.total ≤ (s.ctr cid).vrp)                             -- new revision has more funds than current
+  && (!F.validatePay || (decide (p.up = p.total) && decide (p.mup = p.total)))   -- ValidatePaymentRevision
+  && decide (cost ≤ p.total)                                        -- payment does not cover the cost (fix d77a196)
+  && (!checkMax || decide (s.bal a + (p.total - cost) ≤ s.cfg.maxBal))  -- ErrBalanceExceeded
 
-def credited (F : Facts) (c : Contract) (cost total : Nat) : Contract :=
-  { c with vhp := c.vhp + total, vrp := c.vrp - total, mhp := c.mhp + total,
-           u := c.u.add (F.persist { rpc := cost, af := if F.fundAf then total - cost else 0 }) }
+def credited (F : Facts) (c : Contract) (cost : Nat) (p : PayRev) : Contract :=
+  { c with vhp := c.vhp + p.up, vrp := c.vrp - p.total, mhp := c.mhp + p.mup,
+           u := c.u.add (F.persist { rpc := cost, af := if F.fundAf then p.total - cost else 0 }) }
 
-/-- `CreditAccountWithContract` for a payment revision moving `total`; `cost` goes to RPC revenue,
-`total − cost` to the account.  `checkMax` = `!refund`. -/
-def credit (F : Facts) (s : State) (cid : Cid) (a : Acct) (cost total : Nat) (checkMax : Bool) : State × Out :=
-  if total < cost ∧ (s.ctr cid).present ∧ (s.ctr cid).revisable ∧ total ≤ (s.ctr cid).vrp then
-    (s, .panic)                                                     -- `totalAmount.Sub(pt.FundAccountCost)`
-  else if creditGuard s cid a cost total checkMax ∧ cost ≤ total then
-    ({ s with ctr := upd s.ctr cid (credited F (s.ctr cid) cost total),
-              rows := upsert s.rows cid a (total - cost),
-              bal := upd s.bal a (s.bal a + (total - cost)) }, .ok)
+/-- `CreditAccountWithContract` for a payment revision taking `p.total` from the renter; `cost` goes
+to RPC revenue, `p.total − cost` to the account.  `checkMax` = `!refund`. -/
+def credit (F : Facts) (s : State) (cid : Cid) (a : Acct) (cost : Nat) (p : PayRev) (checkMax : Bool) : State × Out :=
+  if creditGuard F s cid a cost p checkMax then
+    ({ s with ctr := upd s.ctr cid (credited F (s.ctr cid) cost p),
+              rows := upsert s.rows cid a (p.total - cost),
+              bal := upd s.bal a (s.bal a + (p.total - cost)) }, .ok)
   else (s, .reject)
 
 /-- `handleRPCFundAccount` -/
-def fund (F : Facts) (s : State) (cid : Cid) (a : Acct) (cost total : Nat) : State × Out :=
-  credit F s cid a cost total true
+def fund (F : Facts) (s : State) (cid : Cid) (a : Acct) (cost : Nat) (p : PayRev) : State × Out :=
+  credit F s cid a cost p true
 
 /-- `processContractPayment`: the whole transfer is credited to the refund account -/
-def pay (F : Facts) (s : State) (cid : Cid) (a : Acct) (amount : Nat) : State × Out :=
-  credit F s cid a 0 amount false
+def pay (F : Facts) (s : State) (cid : Cid) (a : Acct) (p : PayRev) : State × Out :=
+  credit F s cid a 0 p false
 
 /-! ### account spending (`Budget.Commit` → `DebitAccount` → `distributeRHP3AccountUsage`) -/
 
@@ -386,9 +413,9 @@ def renew (F : Facts) (s : State) (old new : Cid) (v3 : Bool)
 
 inductive Op where
   | form (cid : Cid) (hp mhp vrp price : Nat)
-  | revise (cid : Cid) (k : Kind) (cost : Cost) (transfer burn : Nat)
-  | fund (cid : Cid) (a : Acct) (cost total : Nat)
-  | pay (cid : Cid) (a : Acct) (amount : Nat)
+  | revise (cid : Cid) (k : Kind) (cost : Cost) (transfer burn : Nat) (wf : Bool := true)
+  | fund (cid : Cid) (a : Acct) (cost : Nat) (p : PayRev)
+  | pay (cid : Cid) (a : Acct) (p : PayRev)
   | debit (a : Acct) (u : Usage)
   | finalize (cid : Cid) (burn stoCost collCost : Nat)
   | renew (old new : Cid) (v3 : Bool) (transfer minPay hp mhp vrp price sto baseColl : Nat)
@@ -396,9 +423,9 @@ deriving Repr
 
 def stepOut (F : Facts) (s : State) : Op → State × Out
   | .form cid hp mhp vrp price => form s cid hp mhp vrp price
-  | .revise cid k cost t b => revise F s cid k cost t b
-  | .fund cid a cost total => fund F s cid a cost total
-  | .pay cid a amount => pay F s cid a amount
+  | .revise cid k cost t b wf => revise F s cid k cost t b wf
+  | .fund cid a cost p => fund F s cid a cost p
+  | .pay cid a p => pay F s cid a p
   | .debit a u => debit F s a u
   | .finalize cid b sc cc => finalize F s cid b sc cc
   | .renew o n v3 t mp hp mhp vrp p st bc => renew F s o n v3 t mp hp mhp vrp p st bc
